@@ -65,6 +65,9 @@ pub trait Engine {
     fn on_hang(_trace: &Self::Trace) -> Option<Self::Trace> {
         None
     }
+    /// Watchdog limit for one run of this engine, seconds of wall time (overridden by
+    /// VERIF_RUN_WATCHDOG_S).
+    const WATCHDOG_S: u64 = 120;
 }
 
 thread_local! {
@@ -127,7 +130,11 @@ extern "C" {
 /// Watchdog for one isolated run, in seconds of wall time. It never influences a schedule: it
 /// only ends a child that no longer makes progress (a run normally takes well under a second).
 pub fn watchdog_secs() -> u64 {
-    std::env::var("VERIF_RUN_WATCHDOG_S").ok().and_then(|s| s.parse().ok()).unwrap_or(120)
+    watchdog_secs_or(120)
+}
+
+pub fn watchdog_secs_or(default: u64) -> u64 {
+    std::env::var("VERIF_RUN_WATCHDOG_S").ok().and_then(|s| s.parse().ok()).unwrap_or(default)
 }
 
 /// Called in the child before a run starts (e.g. to reseed the system-call seam).
@@ -168,7 +175,7 @@ pub fn execute_isolated<E: Engine>(trace: &E::Trace, run_seed: u64, init: Option
         let _ = r.read_to_end(&mut buf);
         let _ = tx.send(buf);
     });
-    let limit = std::time::Duration::from_secs(watchdog_secs());
+    let limit = std::time::Duration::from_secs(watchdog_secs_or(E::WATCHDOG_S));
     let mut status = 0i32;
     let mut hung = false;
     let buf = match rx.recv_timeout(limit) {
@@ -235,8 +242,18 @@ pub fn in_child<T: Serialize + DeserializeOwned>(f: impl FnOnce() -> T) -> Optio
 
 fn run_one<E: Engine>(trace: &E::Trace, run_seed: u64, isolate: bool, init: Option<ChildInit>) -> Outcome {
     if isolate {
+        static HANGS: std::sync::atomic::AtomicU32 = std::sync::atomic::AtomicU32::new(0);
+        // after three hung runs in this worker the remaining runs use the coarser form at once
+        if HANGS.load(std::sync::atomic::Ordering::Relaxed) >= 3 {
+            if let Some(coarser) = E::on_hang(trace) {
+                let mut o2 = execute_isolated::<E>(&coarser, run_seed, init);
+                o2.count("runs_started_with_coarser_schedule_after_repeated_hangs", 1);
+                return o2;
+            }
+        }
         let o = execute_isolated::<E>(trace, run_seed, init);
         if o.hung {
+            HANGS.fetch_add(1, std::sync::atomic::Ordering::Relaxed);
             if let Some(coarser) = E::on_hang(trace) {
                 let mut o2 = execute_isolated::<E>(&coarser, run_seed, init);
                 o2.count("runs_hung_then_completed_with_coarser_schedule", if o2.hung { 0 } else { 1 });
